@@ -1168,8 +1168,8 @@ def check_decrement_sites(ctx, rep, pid):
             tr = [is_transition_result_unchanged(f) for f in S]
             tr = [x for x in tr if x]
             ok_tr = any(x[2][1] == strip_sites(mi) and x[2][2][0] == 'agg' and x[2][2][2] == v for x in tr)
-            ok_end = has_cmp(S, 'ne', lambda l: is_field(l, 'current_state', 'MachineRuntime') and base_of(l)[0] == 'idx' and base_of(l)[2] == strip_sites(mi),
-                             lambda r: r[0] == 'cdef' and r[1].endswith('STATE_END'), True)
+            ok_end = cmp_int_true(S, 'ne', lambda l: is_field(l, 'current_state', 'MachineRuntime') and base_of(l)[0] == 'idx' and base_of(l)[2] == strip_sites(mi),
+                                  lambda r: r[0] == 'cdef' and r[1].endswith('STATE_END'))
 
             def is_event_id(e):
                 return is_call(e, 'into_raw') and is_field(e[2][0], 'machine', 'TriggerEvent') and ('var', ('deref', ('param', 2)), v) in list(walk(e))
